@@ -1,4 +1,6 @@
+import Btdht.Proofs.GuardTie.Boot
 import Btdht.Proofs.Dht
+import Btdht.Proofs.BootMain
 /-!
 # C15 — Bootstrap completes when it can, tells every waiter, never kills the node
 
@@ -27,9 +29,17 @@ Proved for every run (any configuration, inputs, timing):
   first-round contact list is duplicate-free, `C15_first_round_distinct`, and, for every run,
   `C15_exchanges_distinct`: the exchanges registered with the socket always have pairwise distinct
   (address, transaction id) keys, all with the bootstrap action prefix — the asserted condition).
-PARTIAL: the timed clause (resolution within about 11 minutes of a contact becoming responsive) is
-not proved in Lean; it is decided by the [C15] oracle of the node engine on outage scenarios
-(0 s .. 2 h, flapping) against the real node, in lockstep with this model.
+* the timed clause (end of this file): `C15_completes` / `C15_completes_trace`: from every state a node
+  without routers reaches in a punctual run, once a node contact `c` is responsive (from `t0` on) the
+  worker publishes `Bootstrapped`, the handler observes it and resolves every registered waiter in that
+  transition, at an instant `≤ t0 + bootBound n` (`n` distinct node contacts), `bootBound n =
+  512 s + 2·(2.5 s + 0.5 s·(n − 9)) + 80 s ≤ 11 min` for `n ≤ 20` (`C15_bound_value`, `C15_bound_11_minutes`);
+  `C15_progress_invariant`: the invariant behind it (absolute bounds on every deadline the worker waits
+  for) holds in every reachable state, whatever the network did before.
+  Helper files: `Proofs/BootTime` (induction over a step for clock-related invariants, punctuality),
+  `BootFrame`, `BootLive` / `BootOb` / `BootRun` (the progress invariant), `BootSafe` (reachable states),
+  `BootWait` (waiters and the shape of a completion in the trace), `BootTrace` (responsiveness as a
+  property of inputs and trace), `BootDec` / `BootDecT` (decidability, for the examples), `BootMain`.
 -/
 namespace Btdht
 
@@ -1264,5 +1274,153 @@ theorem C15_exchanges_distinct (selfId : Bytes) (addr : Addr) (ro : Bool) (port 
     ⟨by simp [DState.new, DState.registered, BPhase.active], by simp [DState.new, DState.registered, BPhase.active],
      by intro _ _ _ _ _ _ _ _ he; simp [DState.new] at he⟩
   exact ⟨hi.nodup, fun p hp => (hi.drawn p hp).1⟩
+
+end Btdht
+
+namespace Btdht
+
+-- ------------------------------------------------------------------ the timed clause
+
+/-- the numeric value of the bound: `512 s + 2·(2.5 s + 0.5 s·(n − 9)) + 160·0.5 s` -/
+theorem C15_bound_value (n : Nat) : bootBound n = 597000000000 + (n - 9) * 1000000000 := by
+  unfold bootBound firstRoundMax
+  rw [retryMax_val, sweepMax_val, initialTimeout_val, freeSends_val, throttleDelay_val]
+  omega
+
+/-- **C15 (the bound is below 11 minutes)** for up to 20 distinct node contacts. -/
+theorem C15_bound_11_minutes (n : Nat) (h : n ≤ 20) : bootBound n ≤ 11 * 60 * 1000000000 := bootBound_le_11min n h
+
+/-- **C15 (the progress invariant holds in every reachable state)**: whatever inputs a node without routers
+and with the node contact `c` has received in a punctual run since its creation — unreachable network,
+silent or erroneous contacts, any number of failed attempts — the state `s` it has reached is at a step
+boundary (`Boundary`: the worker waits, nothing is queued for it, the handler has seen its latest
+published state) and is `Safe`: the node is not started yet, or it is bootstrapped and the handler knows,
+or, for every `t0` from now on, the worker's phase comes with absolute bounds (`PhaseOk`): a back-off sleep
+ends by `t0 + FR + 512 s`, a first round is over by then minus 512 s (`FR = 2.5 s + 0.5 s·(n − 9)`, `RoundEnds`:
+every exchange's time-out and every throttled send accounted for), the bucket rounds `k..159` are over by
+`t0 + bootBound n` (each exchange times out 0.5 s after its send), and a published `Bootstrapped` is
+observed in the same step. -/
+theorem C15_progress_invariant (selfId : Bytes) (addr : Addr) (ro : Bool) (port : Option Nat) (fa : List Addr) (cfg : BConfig)
+    (born : Nat) (c : Addr) (hrg : cfg.routersGiven = false) (hrs : cfg.routers = []) (hc : c ∈ cfg.nodes)
+    (pre : List DInput) (hpre : (DState.new selfId addr ro port fa cfg born).runP pre) :
+    Safe c (dedup cfg.nodes).length ((DState.new selfId addr ro port fa cfg born).run pre).1 ∧
+    Boundary ((DState.new selfId addr ro port fa cfg born).run pre).1 := by
+  obtain ⟨hsafe0, hb0⟩ := safe_new c selfId addr ro port fa cfg born ⟨hrg, hrs⟩ hc
+  exact safe_run c _ pre _ hsafe0 hb0 hpre
+
+/-- **C15 (bootstrap completes within the bound once a contact is responsive)**.
+
+A node without routers (`routersGiven = false`, no router addresses) and with node contacts, among
+them `c`, is created at `born` and runs any punctual run `pre` (any inputs, any network behaviour,
+for any length of time: unreachable network, failed attempts, back-off sleeps, earlier completions).
+Let `s` be the state it has reached, started (`phase ≠ awaitStart`), and let `t0 ≥ s.clock`.
+For every punctual continuation `ins` (`runP`: the fuel-bounded loops of the model never run out of
+fuel, i.e. time really advances and the worker always runs until it has to wait) in which `c` is
+responsive after `t0` (`RespRun c t0`: a first-round `find_node` sent to `c` after `t0` is sent
+successfully and no step moves time beyond its 2.5 s time-out while it is unanswered; `c` sends no
+KRPC errors), one of the following holds:
+* `s` is bootstrapped already, and then nobody is waiting in `s`; or
+* the run has not yet lasted until `t0 + bootBound n`, `n` the number of distinct node contacts; or
+* at an instant `t ≤ t0 + bootBound n` the worker has published `Bootstrapped` (`bpub`), the handler
+  has observed it at that same instant (`bstate`), and in the same transition exactly the
+  `bootstrapped()` calls that were registered and unresolved at that point — `unresolvedAfter`
+  computes them from the waiters of `s` and the `cmd checkBootstrap` / `resolved` events since — have
+  been resolved: every concurrent waiter, in one go.
+`bootBound n = 512 s + 2·(2.5 s + 0.5 s·(n − 9)) + 160·0.5 s` (`C15_bound_value`), at most 11 minutes for
+`n ≤ 20` (`C15_bound_11_minutes`). -/
+theorem C15_completes (selfId : Bytes) (addr : Addr) (ro : Bool) (port : Option Nat) (fa : List Addr) (cfg : BConfig)
+    (born : Nat) (c : Addr) (hrg : cfg.routersGiven = false) (hrs : cfg.routers = []) (hc : c ∈ cfg.nodes)
+    (pre : List DInput) (hpre : (DState.new selfId addr ro port fa cfg born).runP pre) (t0 : Nat) (ins : List DInput) :
+    let s := ((DState.new selfId addr ro port fa cfg born).run pre).1
+    let B := bootBound (dedup cfg.nodes).length
+    s.phase ≠ .awaitStart → s.clock ≤ t0 → s.runP ins → RespRun c t0 s ins →
+    (s.pub = .bootstrapped ∧ s.waiters = []) ∨ (s.run ins).1.clock ≤ t0 + B ∨
+    ∃ t pre' post, t ≤ t0 + B ∧ (t, DEv.bpub .bootstrapped) ∈ pre' ∧
+      (s.run ins).2 =
+        pre' ++ stamp t (DEv.bstate :: (unresolvedAfter s.waiters s.nextWaiter pre').1.map DEv.resolved) ++ post := by
+  intro s B hst h0 hp hr
+  obtain ⟨hsafe0, hb0⟩ := safe_new c selfId addr ro port fa cfg born ⟨hrg, hrs⟩ hc
+  obtain ⟨hsafe, hb⟩ := safe_run c _ pre _ hsafe0 hb0 hpre
+  by_cases hpub : s.pub = .bootstrapped
+  · left
+    refine ⟨hpub, ?_⟩
+    obtain ⟨_, _, hi⟩ := run_ok c15w_obligations (DState.new selfId addr ro port fa cfg born) () pre
+      ⟨Nat.le_refl _, fun _ hp0 => by simp [DState.new] at hp0⟩
+    exact hi.none hb.seen hpub
+  · right
+    by_cases hlate : (s.run ins).1.clock ≤ t0 + B
+    · exact Or.inl hlate
+    · right
+      exact completes_full c _ s hsafe hb (waiters_lt_run selfId addr ro port fa cfg born pre hpre) hst hpub t0 h0 ins hp hr
+        (by omega)
+
+/-- a contact, a fresh node that knows only this contact, a start command, and a continuation in which
+the first query times out (2.5 s), the worker sleeps 2 s, begins its next attempt at 4.5 s and asks
+the contact again, after `t0 = 0`; the run ends at 6 s with that query outstanding -/
+def c15Contact : Addr := ⟨false, [10, 0, 0, 1], 6881⟩
+def c15Node : DState := DState.new (List.replicate 20 0) ⟨false, [10, 0, 0, 9], 1⟩ false none [] ⟨false, [], [c15Contact]⟩ 0
+def c15Start : List DInput := [⟨[.cmd .startBootstrap], 0, false, [], false⟩]
+def c15Run : List DInput := [⟨[.adv], 5000000000, false, [], false⟩, ⟨[.garbage c15Contact], 6000000000, false, [], false⟩]
+
+/-- non-vacuity of `C15_progress_invariant` and `C15_completes`: all their hypotheses hold of this node and run -/
+example : c15Node.cfg.routersGiven = false ∧ c15Node.cfg.routers = [] ∧ c15Contact ∈ c15Node.cfg.nodes ∧ c15Node.runP c15Start ∧
+    (c15Node.run c15Start).1.phase ≠ .awaitStart ∧ (c15Node.run c15Start).1.clock ≤ 0 ∧
+    (c15Node.run c15Start).1.runP c15Run ∧ RespRun c15Contact 0 (c15Node.run c15Start).1 c15Run := by
+  refine ⟨rfl, rfl, by simp [c15Node, DState.new], by decide +kernel, ?_, by decide +kernel, by decide +kernel, respRunB_sound _ _ _ _ (by decide +kernel)⟩
+  intro h
+  have := congrArg (fun p => match p with | BPhase.awaitStart => true | _ => false) h
+  revert this
+  decide +kernel
+
+/-- ... and at its end the query that `RespRun` speaks about is outstanding: sent at 4.5 s, after `t0` -/
+example : ((c15Node.run c15Start).1.run c15Run).1.phase.firstRound.map (fun p => (p.addr, p.deadline)) =
+    [(c15Contact, 7000000000)] := by decide +kernel
+
+/-- **C15 (nobody is left waiting by the completion)**: the events singled out by `C15_completes` — the
+observed completion followed by the results of the calls that were unresolved — leave no `bootstrapped()`
+call unresolved, whatever happened before (`ws`, `n`: the waiters and the next call id of the start state). -/
+theorem C15_completion_resolves_all (ws : List Nat) (n t : Nat) (pre : List (Nat × DEv)) :
+    (unresolvedAfter ws n (pre ++ stamp t (DEv.bstate :: (unresolvedAfter ws n pre).1.map DEv.resolved))).1 = [] := by
+  rw [unresolvedAfter_append]
+  have hsplit : stamp t (DEv.bstate :: (unresolvedAfter ws n pre).1.map DEv.resolved) =
+      stamp t [DEv.bstate] ++ stamp t ((unresolvedAfter ws n pre).1.map DEv.resolved) := by simp [stamp]
+  rw [hsplit, unresolvedAfter_append, unresolvedAfter_other _ _ _ [DEv.bstate] (by simp [DEv.isWaiterEv])]
+  simp only
+  rw [unresolvedAfter_resolveAll _ _ _ _ (fun i hi => hi)]
+
+/-- **C15 (bootstrap completes within the bound — responsiveness stated on the inputs and the trace)**.
+
+As `C15_completes`, with the responsiveness of `c` after `t0` expressed without reference to the
+node's state (`RespRunT`): a monitor (`owedScan`) reads the trace from the node's creation on and keeps
+the instants at which first-round `find_node` queries (target: the node's own id) were successfully sent
+to `c` after `t0` and are still outstanding — not yet followed by `bhandled c` (the worker handled
+`c`'s answer), by the end of that first round (`binitialDone`) or by the next attempt (`battempt`).
+The hypothesis says, for every step of the continuation: the step does not last until 2.5 s after an
+outstanding query was sent (so: `c`'s answer is delivered, as an input of a later step, before the
+time-out); a first-round query to `c` is sent successfully; `c` sends no KRPC error messages. -/
+theorem C15_completes_trace (selfId : Bytes) (addr : Addr) (ro : Bool) (port : Option Nat) (fa : List Addr) (cfg : BConfig)
+    (born : Nat) (c : Addr) (hrg : cfg.routersGiven = false) (hrs : cfg.routers = []) (hc : c ∈ cfg.nodes)
+    (pre : List DInput) (hpre : (DState.new selfId addr ro port fa cfg born).runP pre) (t0 : Nat) (ins : List DInput) :
+    let s := ((DState.new selfId addr ro port fa cfg born).run pre).1
+    let o := scanS (owedScan c t0) [] ((DState.new selfId addr ro port fa cfg born).run pre).2
+    let B := bootBound (dedup cfg.nodes).length
+    s.phase ≠ .awaitStart → s.clock ≤ t0 → s.runP ins → RespRunT c t0 o s ins →
+    (s.pub = .bootstrapped ∧ s.waiters = []) ∨ (s.run ins).1.clock ≤ t0 + B ∨
+    ∃ t pre' post, t ≤ t0 + B ∧ (t, DEv.bpub .bootstrapped) ∈ pre' ∧
+      (s.run ins).2 =
+        pre' ++ stamp t (DEv.bstate :: (unresolvedAfter s.waiters s.nextWaiter pre').1.map DEv.resolved) ++ post := by
+  intro s o B hst h0 hp hr
+  have hb0 : Boundary (DState.new selfId addr ro port fa cfg born) := ⟨rfl, trivial, rfl⟩
+  have hlk := lk_run c t0 pre _ [] (lk_new c t0 selfId addr ro port fa cfg born) hb0 hpre
+  have hb := (safe_run c _ pre _ (safe_new c selfId addr ro port fa cfg born ⟨hrg, hrs⟩ hc).1 hb0 hpre).2
+  exact C15_completes selfId addr ro port fa cfg born c hrg hrs hc pre hpre t0 ins hst h0 hp
+    (respRunT_sound c t0 ins s o hlk hb hp hr)
+
+/-- non-vacuity of `C15_completes_trace` on the same node and run: after the start (query sent at 0, not
+after `t0 = 0`) the monitor holds nothing; during the first step of the continuation the query of the
+second attempt goes out at 4.5 s, and the run ends (6 s) before its time-out (7 s) -/
+example : RespRunT c15Contact 0 (scanS (owedScan c15Contact 0) [] (c15Node.run c15Start).2) (c15Node.run c15Start).1 c15Run ∧
+    scanS (owedScan c15Contact 0) [] ((c15Node.run c15Start).1.run c15Run).2 = [4500000000] :=
+  ⟨respRunTB_sound _ _ _ _ _ (by decide +kernel), by decide +kernel⟩
 
 end Btdht
